@@ -68,7 +68,10 @@ def main():
     else:
         cases = mod.cases(ctx)
     with open(a.out, "w") as out:
-        for case in cases:
+        for kk, case in enumerate(cases):
+            # every other case builds its circuits with a shuffled node insertion order (graph iteration order)
+            if not replay and isinstance(case, dict):
+                case.setdefault("ord", kk if kk % 2 else None)
             try:
                 evs = mod.run_case(case, ctx)
             except Exception:
